@@ -20,6 +20,7 @@ mod gen;
 mod mdoc;
 mod optrep;
 mod refint;
+mod replay;
 mod report;
 mod rx;
 
@@ -32,6 +33,9 @@ fn main() {
         std::process::exit(2);
     }
     report::quiet_panics();
+    if args[1] == "--replay" {
+        std::process::exit(replay::run(args.get(2).map(|s| s.as_str()).unwrap_or("")));
+    }
     if args[1] == "--c04-depth" {
         std::process::exit(c04::depth_child(args.get(2).map(|s| s.as_str()).unwrap_or("")));
     }
